@@ -29,12 +29,14 @@ CHUNK = 100
 def collect():
     if str(common.REPO) not in sys.path:
         sys.path.insert(0, str(common.REPO))
-    import capellambse  # noqa: F401
+    import capellambse
     import capellambse.extensions.filtering  # noqa: F401
     import capellambse.extensions.pvmt  # noqa: F401
     import capellambse.extensions.reqif  # noqa: F401
     import capellambse.extensions.validation  # noqa: F401
     import capellambse.metamodel  # noqa: F401
+
+    capellambse.load_model_extensions()  # what loading a model does: the extensions attach their relations
     from capellambse.model import _descriptors as D
     from capellambse.model import _xtype
 
